@@ -1,4 +1,5 @@
 import Hdc.Lemmas.GenNum
+import Hdc.Gen.NumWs2doptv
 import Hdc.Lemmas.GenNumOptv
 import Std.Tactic.Do
 /-
